@@ -2,6 +2,7 @@ package main
 
 import (
 	"flag"
+	"go/ast"
 	"fmt"
 	"os"
 	"runtime/debug"
@@ -9,9 +10,16 @@ import (
 	"strings"
 )
 
-type Deep struct{}
+
+var extraCmds = map[string]func([]string){}
 
 func main() {
+	if len(os.Args) > 1 {
+		if f, ok := extraCmds[os.Args[1]]; ok {
+			f(os.Args[2:])
+			return
+		}
+	}
 	if len(os.Args) > 1 && os.Args[1] == "dump" {
 		dumpCmd(os.Args[2:])
 		return
@@ -126,4 +134,38 @@ func explainCmd(args []string) {
 		os.Exit(2)
 	}
 	fmt.Println(string(b))
+}
+
+func init() {
+	extraCmds["callees"] = func(args []string) {
+		p, err := Load("/repo", true, nil)
+		if err != nil {
+			fmt.Println(err)
+			os.Exit(2)
+		}
+		r := NewRun(p, "X", "quick", 0)
+		d := r.Deep()
+		for _, fn := range append(append([]*Func{}, p.All...), p.Ext...) {
+			match := false
+			for _, a := range args {
+				if strings.Contains(fn.Name, a) {
+					match = true
+				}
+			}
+			if !match {
+				continue
+			}
+			ast.Inspect(fn.Body, func(n ast.Node) bool {
+				if c, ok := n.(*ast.CallExpr); ok {
+					k, o := d.Callees(p, c)
+					var ks []string
+					for _, f := range k {
+						ks = append(ks, f.Name)
+					}
+					fmt.Printf("%s: %s -> %v opaque=%d\n", p.Pos(c.Pos()), p.exprStr(c.Fun), ks, len(o))
+				}
+				return true
+			})
+		}
+	}
 }
